@@ -260,7 +260,11 @@ def judge(family, case, rec):
         p = len(A)
         try:
             if which == "LGANM":
-                sempler.LGANM(A, (0, 1), (1, 2))
+                # W is documented as array_like: nested lists / tuples now and then
+                h = int(np.count_nonzero(A)) + len(A)
+                Warg = (A, A.tolist(), A, tuple(tuple(r) for r in A.tolist()))[h % 4]
+                rec.count("ctor:LGANM-W-as-%s" % type(Warg).__name__)
+                sempler.LGANM(Warg, (0, 1), (1, 2))
             elif which == "ANM":
                 sempler.ANM(A, [None] * p, [sempler.noise.normal(0, 1)] * p)
             else:
